@@ -91,8 +91,8 @@ type c08Case struct {
 
 type fillCount struct {
 	l, r, refill, fill, tip, pad, ell, other int
-	order                                  string // sequence of classes, run-length collapsed
-	raw                                    string
+	order                                    string // sequence of classes, run-length collapsed
+	raw                                      string
 }
 
 // classify counts display cells per component.
